@@ -604,6 +604,14 @@ def run(ctx):
     cr = ctx_route()
     laws_over(ctx, TRIPLE_POOL + [None],
               lambda o, x, y: cr.run(formula_text(o, 'A1', 'B1'), {'A1': x, 'B1': y}, cache=True))
+    # 3b. numbers a few ulp apart (0.1+0.2 vs 0.3 ...): the order laws must hold there as well
+    import math
+    near = []
+    for x in (0.3, 3.3, 1 / 3, 1.0, 100.0, 1e6, -0.7, 2.675, 1e-7):
+        near += [x, math.nextafter(x, math.inf), math.nextafter(x, -math.inf)]
+    near += [0.1 + 0.2, 1.1 * 3, 0.3333333333333334]
+    ctx.count('near-equal-number-values', len(near))
+    laws_over(ctx, near, lambda o, x, y: via_fixup(o, x, y))
     # 4. sampled
     sampled(ctx)
 
